@@ -71,7 +71,7 @@ def curated():
     out.append(D.wf("loop_fork_overlap", {
         "t0": T(next=[dict(do=["t1", "t4"])]),
         "t1": T(next=[dict(when="succeeded", pub=[["n", "inc:n"]], do=["t2"])]),
-        "t2": T(next=[dict(when="lt:n:2", do=["t1", "t4"]), dict(when="ge:n:2", do=["t4"])]),
+        "t2": T(next=[dict(when="lt:n:2", do=["t1"]), dict(when="succeeded", do=["t4"])]),     # t4 forked by the same transition on every pass
         "t4": T(next=[dict(do=["t5"])]),
         "t5": T()}, vars=[["n", 0]], output=[["on", "ctx:n"]]))
     out.append(D.wf("on_complete", {
